@@ -876,6 +876,28 @@ def project(src_crs, dst_crs, wx, wy):
     return x[ok], y[ok]
 
 
+def projected_pixel_step(src, dst_crs):
+    """largest length, in target units, of a one-pixel step of the source (corners and centre, both axes)"""
+    import numpy as np
+
+    ny, nx = src.shape
+    pts = [(0, 0), (max(nx - 1, 0), 0), (0, max(ny - 1, 0)), (max(nx - 1, 0), max(ny - 1, 0)), (nx // 2, ny // 2)]
+    px = np.array([[x, x + 1, x] for x, _ in pts], dtype="float64").ravel()
+    py = np.array([[y, y, y + 1] for _, y in pts], dtype="float64").ravel()
+    A = src.affine
+    wx, wy = A.a * px + A.b * py + A.c, A.d * px + A.e * py + A.f
+    import pyproj
+
+    key = (str(src.crs), str(dst_crs))
+    if key not in _TR:
+        _TR[key] = pyproj.Transformer.from_crs(src.crs.proj, dst_crs.proj, always_xy=True)
+    X, Y = _TR[key].transform(wx, wy)
+    X, Y = X.reshape(-1, 3), Y.reshape(-1, 3)
+    d = np.concatenate([np.hypot(X[:, 1] - X[:, 0], Y[:, 1] - Y[:, 0]), np.hypot(X[:, 2] - X[:, 0], Y[:, 2] - Y[:, 0])])
+    d = d[np.isfinite(d)]
+    return float(d.max()) if len(d) else None
+
+
 def bounds_of(g):
     """exact bounding box of an axis aligned GeoBox from its affine and shape"""
     a, _, c, _, e, f = (F(float(v)) for v in g.affine[:6])
@@ -960,6 +982,26 @@ def check_scenario(src_s, scn, k_edge=400, k_in=9):
             side = ["left", "right", "bottom", "top"][[(xmin - L) / ax, (R - xmax) / ax, (ymin - Bm) / ay, (T - ymax) / ay].index(worst)]
             fails.append(("encloses", f"a projected source pixel lies {float(-worst):.6g} output pixels outside the {side} edge "
                                       f"(allowed {float(tol + slack)}); result shape {tuple(dst.shape)} res ({float(ax)}, {float(ay)})"))
+    # --- shape requests: displaced by less than one pixel from the projected footprint (pyproj reference).
+    # The code's footprint is buffered by 0.9 source pixel; 1.5 projected source pixel steps are allowed for it.
+    if scn["shape"] is not None and len(px):
+        step = projected_pixel_step(src, dst.crs)
+        if step is not None:
+            allow = F(3, 2) * F(step)
+            ex = {"left": ((xmin - L) - allow) / ax, "right": ((R - xmax) - allow) / ax,
+                  "bottom": ((ymin - Bm) - allow) / ay, "top": ((T - ymax) - allow) / ay}
+            if isinstance(scn["shape"], int):           # an axis clamped to its minimum of one pixel may exceed
+                if dst.shape[1] == 1:
+                    ex.pop("left"), ex.pop("right")
+                if dst.shape[0] == 1:
+                    ex.pop("bottom"), ex.pop("top")
+            if ex:
+                side = max(ex, key=lambda k: ex[k])
+                facts["shape_excess_px"] = float(ex[side])
+                if ex[side] >= 1:
+                    fails.append(("shape", f"shape={scn['shape']}: the {side} edge of the result lies {float(ex[side]):.4g} output "
+                                           f"pixels beyond the projected footprint (pyproj reference, buffer allowance removed); "
+                                           f"result shape {tuple(dst.shape)} res ({float(ax):.6g}, {float(ay):.6g})"))
     # --- resolution
     if scn["shape"] is None:
         same_units = src.crs.units == dst.crs.units
@@ -1016,7 +1058,13 @@ def check_scenario(src_s, scn, k_edge=400, k_in=9):
             longest_x = (br - bl) > (bt - bb)
             cnt = nx if longest_x else ny
             span = (br - bl) if longest_x else (bt - bb)
-            lo_ok = cnt == shp if snap is None else shp <= cnt <= shp + 1
+            # unsnapped: exactly shp pixels.  The pixel size is the binary64 quotient span/shp, so span/res is shp up
+            # to one rounding; with a stated tolerance below that rounding (tol = 0) the ceiling of a quotient that
+            # came out as shp + 1 ulp is shp + 1 — binary64 rounding, outside the exact-arithmetic statement.
+            allowed = {shp}
+            if tol < F(shp) * F(2) ** -50:
+                allowed.add(shp + 1)
+            lo_ok = cnt in allowed if snap is None else shp <= cnt <= shp + 1
             if not lo_ok:
                 fails.append(("shape", f"shape={shp}: {cnt} pixels along the longest side (snap={'off' if snap is None else 'on'})"))
             # the footprint spans `shp` pixels: |span / res - shp| within float rounding
@@ -1231,6 +1279,23 @@ def search(out, tier):
                         continue
                     run(label, src_s, scenario(crs, r, tol=rng.choice([0.01, 0.0])))
                     run(label, src_s, scenario(crs, [r, -r / 2], anchor=["str", "center"]))
+    # every resolution mode x tuple / single-number shape x tight: a shape request takes precedence over resolution=
+    sweep = {"s2-tile-utm", "small-4326", "albers-tile", "rot30-utm", "modis-sinu", "non-square", "south-up", "flipx"}
+    for label, src_s, targets in srcs:
+        if label not in sweep:
+            continue
+        tg = [c for c in targets if not c.lower().startswith("utm")]
+        if tier == "quick":
+            tg = tg[:1] + tg[-1:]
+        for crs in tg:
+            try:
+                r = explicit_resolution(src_s, crs, 3.0)
+            except Exception:  # noqa: BLE001
+                r = 7.0
+            for rq, shp, tight in itertools.product(["same", "auto", "fit", r, [r, -r / 2]], [[30, 40], [7, 3], 25], [False, True]):
+                if tier == "quick" and rq != "same" and rng.random() < 0.5:
+                    continue
+                run(label + "-shapesweep", src_s, scenario(crs, rq, shp, tight, rng.choice(ANCHORS[:10]), rng.choice([0.01, 0.0])))
     if margins:
         m = min(margins)
         out.notes.append(f"enclosure (testing): over {len(margins)} sampled requests every projected source sample point is inside "
